@@ -1,6 +1,6 @@
 (* Executable correspondence checker for C10: the compiler model against what
    cao_lang::compiler::compile returned, and the well-formedness oracle on the crate's output. *)
-From Cao Require Export CheckUtil CardAst Bytecode Compiler.
+From Cao Require Export CheckUtil CardAst Bytecode Compiler Wellformed.
 From Cao Require Import Bits CompilerGen.
 Local Open Scope N_scope.
 
@@ -63,11 +63,41 @@ Definition model_diff (c : c10case) : list N :=
       cresult_diff (compile m {| o_recursion_limit := limit; o_debug := debug |}) obs
   end.
 
+(* the specification oracle on the crate's output, independent of the compiler model.
+   2  = not well-formed for a reason outside the known classes;
+   10 = (A-23) well-formed except that some string operand is complete and valid in `data` but longer
+        than read_str's MAX_STR_LEN window;
+   11 = (A-24) some CloseUpvalue (emitted by scope_end) has no trace entry. *)
+Definition is_close_upvalue (i : instr) : bool := match i with ICloseUpvalue => true | _ => false end.
+Definition spec_codes (obs : cresult) : list N :=
+  match obs with
+  | COk B =>
+      if negb (wf_check_gen false B) then [2]
+      else
+        let u := untraced B in
+        if existsb (fun pi => negb (is_close_upvalue (snd pi))) u then [2]
+        else (if wf_check B then [] else [10]) ++ (match u with [] => [] | _ => [11] end)
+  | _ => []
+  end.
+
+(* the three instruction tables: hand-written span_table = Instruction::span as read from the source;
+   the VM's operand widths agree with it except for NativeFunctionPointer (finding, see Bytecode.v) *)
+Definition span_tables_agree : bool :=
+  list_eqb (pair_eqb opcode_eqb Nat.eqb) span_table gen_span_table
+  && list_eqb opcode_eqb (map fst span_table) all_opcodes.
+Example instr_table_matches_source : span_tables_agree = true.
+Proof. reflexivity. Qed.
+
 Definition check1 (c : c10case) : list N :=
   match c with
   | C10Case m limit debug obs =>
       if negb (module_in_domain m) then [3]
-      else match model_diff c with [] => [] | _ => [1] end
+      else
+        let sp := spec_codes obs in
+        match model_diff c with
+        | [] => sp
+        | _ => 1 :: (if existsb (N.eqb 2) sp then [2] else [])
+        end
   end.
 
 Definition check_all := CheckUtil.check_all check1.
